@@ -73,6 +73,11 @@ def jobs_for(tier):
     for n in range(0, 20):
         J.append({"fn": "increment", "msg": [255] * n})
         J.append({"fn": "increment", "msg": det(n, "inc")})
+    # word-structured operands (carries that die and start again): arrangements of zero / 0xff / 0xff..fe words, 24 and 32 bytes
+    words = {"z": [0] * 8, "f": [255] * 8, "e": [255] * 7 + [254], "o": [1] + [0] * 7}
+    for combo in ["zfz", "fzf", "ffz", "zff", "efz", "fef", "ofz", "zfzf", "ffff", "fffe", "ofof"]:
+        J.append({"fn": "increment", "msg": sum((words[c] for c in combo), [])})
+        J.append({"fn": "increment", "msg": sum((words[c] for c in combo), []) + [255] * 3})
     for n in [0, 1, 15, 16, 17, 31, 32, 33, 63, 64, 65, 131] + ([255, 256, 257] if thorough else []):
         J.append({"fn": "secretbox", "key": det(32, "sbk"), "nonce": det(24, "sbn"), "msg": det(n, "sbm")})
     return J
